@@ -827,16 +827,17 @@ func (w *world) activeSet() (map[onet.TokenID]bool, map[onet.TokenID]bool) {
 var lockNames = []string{"instancesLock", "pendingTreeLock", "pendingMsgLock", "transmitMux", "pendingConfigsMut", "treeStorage"}
 
 func (w *world) snapshot(o *obs) {
+	// first let the peers' recorders finish (they look at the tree store), then probe the mutexes
+	if !w.drainPeers() && o.Out == 0 {
+		// the server cannot reach a listening peer any more: it has stopped serving
+		o.Out = 2
+		o.Note += " marker to a peer not delivered"
+	}
 	free := w.ov.VerifLocksFree()
 	for i, n := range lockNames {
 		if !free[n] {
 			o.Locks = append(o.Locks, i)
 		}
-	}
-	if !w.drainPeers() && o.Out == 0 {
-		// the server cannot reach a listening peer any more: it has stopped serving
-		o.Out = 2
-		o.Note += " marker to a peer not delivered"
 	}
 	w.mu.Lock()
 	o.ReplyOK = w.pongs == w.replies
